@@ -160,6 +160,11 @@ def small_input(text):
     return len(AMPLIFIERS.findall(text)) <= 1 and text.count("*") <= 1
 
 
+def strict_text(text):
+    """plot-valued calls reach matplotlib, which writes its own warnings: their streams are not held against Ka"""
+    return not any(n + "(" in text for n in PLOT_NAMES)
+
+
 def sig_of(text, why):
     head = text.split("(")[0].strip()[:12] if text and text[0].isalpha() else "expr"
     return dict(kind="outcome", why=why[:60], head=head)
@@ -300,16 +305,54 @@ def run(ctx):
             rep.violation(dict(kind="command", cls=o.get("escaped", "hung")), "C06 fails: interpreter command %r: %s" % (o.get("line"), o.get("escaped", "hung")),
                           dict(command=o.get("line"), outcome=o.get("escaped", "hung")))
     # ---- F: CLI exit code equals the status
-    cli = ["1+1", "1/0", "(", "max()", "x = 3", "\"a\"", "1 m + 1 s", "3!", "sqrt(-1)", "{1,2}"][: 6 if tier == "quick" else 10]
+    cli = ["1+1", "1/0", "(", "max()", "x = 3", "\"a\"", "1 m + 1 s", "3!", "sqrt(-1)", "{1,2}", "5 Hz + 2 s", "3 ohm < 2 S", "4 m^-1 == 4 m", "sin(1, zz: 2)",
+           "vline(1, weight: \"a\")", "nosuchfn(1)", "SQRT(2)", "mdegC(3)", "km(3)", "#2024-02-30#", "\"abc", "1 +", "5 m to s", "1 kdegC", "10^400/3", "(10^400/3) m"]
+    # one input per distinct diagnostic (first 24 characters of the message): the streams of the real process count
+    seen_diag = set()
+    for (f, t, strict), ob in zip(cases, obs):
+        if ob.get("status") == 1 and strict and len(t) < 60 and "\n" not in t and "\x00" not in t:
+            k = (ob.get("err") or "").strip()[:24]
+            if k and k not in seen_diag and len(seen_diag) < (30 if tier == "quick" else 200):
+                seen_diag.add(k)
+                cli.append(t)
     home = os.path.join(ctx["rundir"], "clihome")
     os.makedirs(home, exist_ok=True)
-    for expr in cli:
-        p = subprocess.run(["/venv/bin/python", "-m", "ka.cli", expr], env=dict(os.environ, HOME=home, PYTHONPATH=C.SRC, MPLBACKEND="Agg"),
-                           stdout=subprocess.PIPE, stderr=subprocess.PIPE, text=True, timeout=60)
-        o = next((ob for (f, t, s), ob in zip(cases, obs) if t == expr), None) or C.run_impl(impl_case, [expr], ctx["rundir"], procs=1)[0]
+
+    def run_cli(expr):
+        try:
+            return subprocess.run(["/venv/bin/python", "-m", "ka.cli", expr], env=dict(os.environ, HOME=home, PYTHONPATH=C.SRC, MPLBACKEND="Agg"),
+                                  stdout=subprocess.PIPE, stderr=subprocess.PIPE, text=True, timeout=60)
+        except (subprocess.TimeoutExpired, ValueError) as x:
+            return x
+    from concurrent.futures import ThreadPoolExecutor
+    with ThreadPoolExecutor(8) as ex:
+        procs = list(ex.map(run_cli, cli))
+    known = {t: ob for (f, t, s), ob in zip(cases, obs)}
+    missing = [e for e in cli if e not in known]
+    for e, ob in zip(missing, C.run_impl(impl_case, missing, ctx["rundir"], limit=10.0) if missing else []):
+        known[e] = ob
+    for expr, p in zip(cli, procs):
+        if isinstance(p, ValueError):
+            continue            # an argument the operating system cannot pass (embedded NUL)
+        o = known[expr]
+        if isinstance(p, subprocess.TimeoutExpired):
+            if not o.get("hung"):
+                rep.violation(dict(kind="cli-status"), "C06 fails: `ka %r` does not return" % (expr,), dict(text=expr))
+            continue
+        if o.get("hung") or (not strict_text(expr)):
+            continue
+        bad = None
         if p.returncode != o.get("status") or "Traceback" in p.stderr:
-            rep.violation(dict(kind="cli-status"), "C06 fails: `ka %r` exits with %r, execute() status is %r" % (expr, p.returncode, o.get("status")),
-                          dict(text=expr, exit=p.returncode, status=o.get("status"), stderr=p.stderr[-300:]))
+            bad = "exits with %r, execute() status is %r" % (p.returncode, o.get("status"))
+        elif p.returncode == 1 and p.stdout.strip() != "":
+            bad = "exits with 1 but writes %r on the output stream" % p.stdout.strip()[:80]
+        elif p.returncode == 1 and p.stderr.strip() == "":
+            bad = "exits with 1 and an empty diagnostic"
+        elif p.returncode == 0 and p.stderr.strip() != "":
+            bad = "exits with 0 but writes %r on the error stream" % p.stderr.strip()[:80]
+        if bad:
+            rep.violation(dict(kind="cli-status"), "C06 fails: `ka %r` %s" % (expr, bad),
+                          dict(text=expr, exit=p.returncode, status=o.get("status"), stdout=p.stdout[-200:], stderr=p.stderr[-300:]))
     # ---- correspondence of the error layout with the Coq model on every distinct (len, index)
     disagreements = 0
     if ctx["model_ok"]:
